@@ -119,7 +119,7 @@ func cmdCheck(args []string) int {
 				inconclusive = append(inconclusive, fmt.Sprintf("%s: %d unknown solver verdicts at %s", r.Entry, s.Unknown, l))
 			}
 		}
-		if r.Done == 0 && r.Aborted == 0 && len(r.CEX) == 0 {
+		if r.Done == 0 && r.Aborted == 0 && len(r.CEX) == 0 && r.OtherShards == 0 {
 			inconclusive = append(inconclusive, fmt.Sprintf("%s: vacuous (no path completed: %d panicked, %d blocked, %d infeasible)", r.Entry, r.Panicked, r.Blocked, r.Infeasible))
 		}
 		if len(r.SolverErrors) > 0 {
